@@ -4,7 +4,7 @@
    of model/Checkpoint.v, for the scheduler [sch] (any record of functions), options
    [c], and ANY list [its] of loop iterations (= any world: which reports arrive at
    which poll in which order, which trials complete, any searcher/oracle choices). *)
-From Verif Require Import model.Base model.Checkpoint proofs.CheckpointProofs.
+From Verif Require Import model.Base model.Checkpoint proofs.CheckpointProofs proofs.CheckpointSyncProofs.
 
 (* Every delete_checkpoint call, for EVERY scheduler, schedule and batch order, is made
    (a) by stop_trial immediately after the scheduler answered STOP for that trial (and
@@ -150,7 +150,8 @@ Qed.
 Print Assumptions c20_resume_has_checkpoint.
 
 (* instance, closed: promotion-type schedulers (HyperbandScheduler promotion / pasha /
-   rush_promotion / cost_promotion, DEHB): a trial is resumed only if the scheduler paused
+   rush_promotion / cost_promotion, and DEHB, whose first bracket pauses/resumes and whose other
+   brackets only STOP: its checkpoint-relevant book-keeping is exactly this one): a trial is resumed only if the scheduler paused
    it and has neither resumed nor stopped it since (promo_sched; WHICH trial is an oracle). *)
 Theorem c20_resume_has_checkpoint_promotion :
   forall c its pre i post, speculative c = false ->
@@ -159,21 +160,30 @@ Theorem c20_resume_has_checkpoint_promotion :
 Proof. exact promo_resume_has_checkpoint. Qed.
 Print Assumptions c20_resume_has_checkpoint_promotion.
 
-(* synchronous Hyperband — PARTIAL.  Full statement (not proved; the whole-run invariant of
-   the bracket manager — every trial id in at most one current rung, pending = running —
-   was not completed):
-     c20_resume_has_checkpoint_sync : forall c tbl mx its pre i post, speculative c = false ->
-        run sync_sched c (init (sync0 tbl mx)) its = pre ++ EResume i :: post ->
-        forall w, ~ In (EDelete i w) pre.
-   Proved: the list a bracket reports when a rung completes (what
-   trials_checkpoints_can_be_removed returns) is disjoint from the rung of promoted trials
-   it opens, i.e. from everything that bracket will resume. *)
-Theorem c20_sync_removable_not_promoted_partial :
+(* synchronous Hyperband (sync_sched: bracket manager, rung completion, get_top_list incl. failed
+   trials with NaN, trials_checkpoints_can_be_removed), full strength: for every rung table with
+   non-empty first rungs (the class asserts positive rung sizes), mode, schedule, batch order and
+   failure pattern, with RemoveCheckpointsCallback on or off, every resume_trial(i) is preceded by
+   no delete_checkpoint(i).  Proof: invariant of the bracket manager (every trial id in at most one
+   current rung, pending jobs = handed-out slots without result, removable list disjoint from
+   everything still needed), CheckpointSyncProofs.sync_inv. *)
+Theorem c20_resume_has_checkpoint_sync :
+  forall c tbl mx its pre i post,
+    tbl <> [] /\ Forall (fun rungs => exists sz lv r, rungs = (Datatypes.S sz, lv) :: r) tbl ->
+    speculative c = false ->
+    run sync_sched c (init (sync0 tbl mx)) its = pre ++ EResume i :: post ->
+    forall w, ~ In (EDelete i w) pre.
+Proof. exact sync_resume_has_checkpoint. Qed.
+Print Assumptions c20_resume_has_checkpoint_sync.
+
+(* the kernel fact behind it: what a bracket reports when a rung completes is disjoint from the
+   rung of promoted trials it opens *)
+Theorem c20_sync_removable_not_promoted :
   forall mx b pos t m b' rem,
     bracket_on_result mx b pos t m = (b', Some rem) ->
     forall x, In x rem -> ~ In (Some x) (map fst (b_cur b')).
 Proof. exact sync_removable_not_promoted. Qed.
-Print Assumptions c20_sync_removable_not_promoted_partial.
+Print Assumptions c20_sync_removable_not_promoted.
 
 (* non-vacuity: a promotion-type run with a pause, a resume, a STOP deletion and the final
    stop_all; and a synchronous rung completion with a non-empty removable list *)
